@@ -5,8 +5,8 @@
   holds for every AEAD with the round-trip law. That a forged tag does not verify is the AEAD's
   strength — assumed, and tested by the correspondence harness on every mutation.
 -/
-import ScionTime.Proofs.NtsEnc
-import ScionTime.Proofs.CookieCodec
+import ScionTime.Proofs.NtsReply
+import ScionTime.Proofs.NtsSound
 import ScionTime.Gen.Nts
 namespace ScionTime.C10
 open ScionTime.Nts
@@ -15,23 +15,6 @@ theorem C10_pin_ntpPacketLen : Gen.Nts.ntpPacketLen = (ntpPacketLen : Int) := by
 theorem C10_pin_extAuthenticator : Gen.Nts.extAuthenticator = (extAuthenticator : Int) := by decide
 
 /-! ### soundness -/
-
-/-- what `authenticate` needs to succeed -/
-theorem authenticate_ok (A : AEAD) (b key : Bytes) (d : Decoded) (cs : List Bytes)
-    (h : authenticateG true A b key d = .ok cs) :
-    keyOk key = true ∧ d.nonce.length = 16 ∧
-      ∃ pt, A.openF key d.nonce d.ct (some (b.take d.pos)) = some pt := by
-  unfold authenticateG at h
-  by_cases hk : keyOk key = true
-  · by_cases hn : d.nonce.length = 16
-    · refine ⟨hk, hn, ?_⟩
-      simp only [hk, Bool.not_true, Bool.false_eq_true, if_false, hn, ne_eq, not_true_eq_false, decide_false,
-        Bool.and_false, openC, bind, Res.bind] at h
-      cases ho : A.openF key d.nonce d.ct (some (b.take d.pos)) with
-      | some pt => exact ⟨pt, rfl⟩
-      | none => simp [ho] at h
-    · simp [hk, hn] at h
-  · simp [hk] at h
 
 /-- **auth_sound.** A server accepts a request (`ProcessRequest` returns nil) only if the
     authenticator verifies: `Open` succeeded under *the given key* (the C2S key the listener took
@@ -68,61 +51,6 @@ theorem C10_resp_needs_uid (A : AEAD) (b key : Bytes) (d : Decoded) (reqId : Byt
     `DecodePacket` succeeds then `b = pre ++ a` with `pos = |pre| ≥ 48`, `a` starts with the
     authenticator type and the nonce / ciphertext come from `a` (so the associated data `b[:pos]`
     is *everything* before the authenticator, and nothing after `pos` is trusted without the tag). -/
-theorem decLoop_auth_inv (total : Nat) :
-    ∀ (fuel : Nat) (rest : Bytes) (fu : Bool) (d : Decoded) (fu' : Bool) (d' : Decoded),
-      decLoop true total fuel rest fu d = .ok (fu', true, d') →
-      ∃ pre x y z w body, rest = pre ++ x :: y :: z :: w :: body ∧ d'.pos = total - (body.length + 4) ∧
-        u16 x y = extAuthenticator ∧ unpackAuth body = .ok (d'.nonce, d'.ct) := by
-  intro fuel
-  induction fuel with
-  | zero => intro rest fu d fu' d' h; simp [decLoop] at h
-  | succ fuel ih =>
-    intro rest fu d fu' d' h
-    unfold decLoop at h
-    by_cases h28 : rest.length < 28
-    · simp [h28] at h
-    · obtain ⟨a, b, c, e, body, rfl⟩ : ∃ a b c e body, rest = a :: b :: c :: e :: body := by
-        match rest, h28 with
-        | a :: b :: c :: e :: body, _ => exact ⟨a, b, c, e, body, rfl⟩
-        | [], h | [_], h | [_, _], h | [_, _, _], h => simp at h
-      simp only [h28, if_false] at h
-      have step : ∀ fu1 d1, decLoop true total fuel (List.drop (u16 c e) (a :: b :: c :: e :: body)) fu1 d1 = .ok (fu', true, d') →
-          ∃ pre x y z w body', a :: b :: c :: e :: body = pre ++ x :: y :: z :: w :: body' ∧
-            d'.pos = total - (body'.length + 4) ∧ u16 x y = extAuthenticator ∧ unpackAuth body' = .ok (d'.nonce, d'.ct) := by
-        intro fu1 d1 h1
-        obtain ⟨pre, x, y, z, w, body', hr, hp, ht, hu⟩ := ih _ fu1 d1 fu' d' h1
-        refine ⟨(a :: b :: c :: e :: body).take (u16 c e) ++ pre, x, y, z, w, body', ?_, hp, ht, hu⟩
-        rw [List.append_assoc, ← hr, List.take_append_drop]
-      by_cases hc : (true && (decide (u16 c e < 4) || decide (u16 c e > (a :: b :: c :: e :: body).length))) = true
-      · rw [if_pos hc] at h; simp at h
-      · rw [if_neg hc] at h
-        by_cases ht : u16 a b = extAuthenticator
-        · rw [if_pos ht] at h
-          cases hu : unpackAuth body with
-          | ok nc =>
-            obtain ⟨nonce, ct⟩ := nc
-            rw [hu] at h
-            simp only [Res.ok.injEq, Prod.mk.injEq, true_and] at h
-            obtain ⟨_, hd⟩ := h
-            subst hd
-            exact ⟨[], a, b, c, e, body, rfl, by simp, ht, hu⟩
-          | err x => rw [hu] at h; simp at h
-          | panic x => rw [hu] at h; simp at h
-          | hang => rw [hu] at h; simp at h
-        · rw [if_neg ht] at h
-          by_cases h0 : u16 c e = 0
-          · rw [if_pos h0] at h; simp at h
-          · rw [if_neg h0] at h
-            by_cases h1 : u16 a b = extUniqueIdentifier
-            · rw [if_pos h1] at h; exact step _ _ h
-            · rw [if_neg h1] at h
-              by_cases h2 : u16 a b = extCookie
-              · rw [if_pos h2] at h; exact step _ _ h
-              · rw [if_neg h2] at h
-                by_cases h3 : u16 a b = extCookiePlaceholder
-                · rw [if_pos h3] at h; exact step _ _ h
-                · rw [if_neg h3] at h; exact step _ _ h
-
 theorem C10_authPos (b : Bytes) (d : Decoded) (h : decodePacket b = .ok d) :
     ∃ pre x y z w body, b = pre ++ x :: y :: z :: w :: body ∧ d.pos = pre.length ∧ ntpPacketLen ≤ pre.length ∧
       b.take d.pos = pre ∧ u16 x y = extAuthenticator ∧ unpackAuth body = .ok (d.nonce, d.ct) := by
@@ -204,31 +132,8 @@ theorem C10_auth_complete_response (A : AEAD) (hl : A.Lawful) (hs : A.Sized) (hd
     (fit : ntpPacketLen + (4 + uid.length) + (40 + fieldsLen cs) ≤ maxPacketLen) :
     ∃ b d, encodePacket A hdr ⟨uid, [], [], key, fields extCookie cs⟩ nonce = .ok b ∧ decodePacket b = .ok d ∧
       processResponse A b key d uid = .ok cs := by
-  have hsum : ∀ l : List Bytes, Aligned l → fieldsLen l % 4 = 0 := by
-    intro l
-    induction l with
-    | nil => intro _; rfl
-    | cons c cs ih =>
-      intro ha
-      have h1 := ha c (by simp)
-      have h2 := ih (fun w hw => ha w (by simp [hw]))
-      simp only [fieldsLen]; omega
-  have wf : WellFormed ⟨uid, [], [], key, fields extCookie cs⟩ :=
-    ⟨hu32, hua, by intro v hv; simp at hv, by intro v hv; simp at hv, by simp [hsum cs hca], hk⟩
-  have fit' : packetLen ⟨uid, [], [], key, fields extCookie cs⟩ ≤ maxPacketLen := by
-    simp [packetLen, fieldsLen]; omega
-  obtain ⟨b, he0, he, hd⟩ := encode_decode A hs hdr _ nonce hh wf fit' hn
-  refine ⟨b, _, he0, hd, ?_⟩
-  have hkn : (!keyOk key) = false := by simp [hk]
-  unfold processResponse processResponseG authenticateG
-  simp only [ne_eq, not_true_eq_false, if_false, hkn, Bool.false_eq_true, hn, decide_false, Bool.and_false,
-    openC, bind, Res.bind]
-  rw [he, List.take_left' rfl, hl]
-  have g := fieldsLen_ge cs
-  unfold maxPacketLen at fit
-  simp only [fields_length]
-  rw [ptLoop_cookies true cs _ [] (by omega) (by omega) hlong]
-  simp
+  obtain ⟨b, d, h1, h2, _, h3⟩ := response_complete A hl hs hdr uid key nonce cs hh hu32 hua hk hn hca hlong fit
+  exact ⟨b, d, h1, h2, h3⟩
 
 /-! ### cookies -/
 
@@ -279,6 +184,16 @@ def toyAEAD : AEAD where
 
 example : toyAEAD.Sized ∧ toyAEAD.Lawful :=
   ⟨by intro k n p ad; simp [toyAEAD], by intro k n p ad; simp [toyAEAD]⟩
+
+def samplePacket : Packet :=
+  { uid := zeros 32, cookies := [List.replicate 124 7], placeholders := [zeros 124, zeros 124], key := zeros 32, pt := [] }
+
+set_option maxRecDepth 20000 in
+/-- the hypotheses of `C10_auth_complete_request` are met by a packet of the project's shape -/
+example : WellFormed samplePacket ∧ packetLen samplePacket ≤ maxPacketLen ∧ samplePacket.pt = [] ∧ samplePacket.cookies ≠ [] := by
+  refine ⟨⟨by decide, by decide, ?_, ?_, by decide, by decide⟩, by decide, rfl, by decide⟩
+  · intro v hv; simp [samplePacket] at hv; subst hv; decide
+  · intro v hv; simp [samplePacket] at hv; subst hv; decide
 
 /-- F16 at the pinned commit, for *every* AEAD: a well-formed cookie whose nonce TLV is empty
     makes `Decrypt` panic inside the library (listener crash); after the fix it is an error. -/
